@@ -306,12 +306,21 @@ def selftest(pid, clean_traces, seed, module="TraceMain.tla", count_as=None, als
             continue
         kept.append(h)
         size += sz
+    everything = pool
     pool = kept
     flat = [e for h in pool for e in h]
     for name, (fn, props) in MUTATORS.items():
         if pid not in props:
             continue
         mutated = fn(flat, rng)
+        if mutated is None:
+            # look for a clean history elsewhere in this run on which the corruption applies
+            for h in everything:
+                if len(h) < 400 and fn(h, rng) is not None:
+                    mutated = fn(flat + h, rng)
+                    if mutated is None:
+                        mutated = fn(h, rng)
+                    break
         if mutated is None:
             continue
         applicable.append(name)
